@@ -304,7 +304,8 @@ def run_engine(amh, engine, tier, seed, outdir, extra=()):
             classes = res["summary"].get("code_classes", {})
             for (i, code) in idxs:
                 cls = classes.get(str(code), "model-disagreement")
-                res["failures"].append(dict(engine=engine, group=group, index=i, code=code,
+                res["failures"].append(dict(engine=engine, group=group, index=i, code=code, stem=stem,
+                                            invocation=dict(tier=tier, seed=seed, extra=list(extra)),
                                             case=cases.get((group, i)), kind=cls,
                                             **({"class": cls} if cls != "model-disagreement" else {})))
     res["wall_s"] = time.time() - t0
@@ -340,6 +341,72 @@ def explain_failure(f, run_dirs, explainers):
             rc, out = sh(["timeout", "300", "coqc", "-Q", COQ, "AM", "-w", "-all", ex], cwd=d, timeout=400)
             return out.strip()[-4000:] if rc == 0 else None
     return None
+
+
+def shrink_sysdiff(amh, f, budget_s=150):
+    """ddmin over the operations of one failing sysdiff history: re-run the implementation on
+    sub-histories (same generator stream), let Coq judge each, keep the smallest that still fails with
+    the same code.  Returns a dict for the replay, or None."""
+    inv = f.get("invocation") or {}
+    m = re.match(r"sysdiff(\d+)$", f.get("stem", ""))
+    ops = (f.get("case") or {}).get("ops")
+    if not m or not ops or f.get("index") is None:
+        return None
+    shards = 16 if inv.get("tier") == "thorough" else 4
+    gi = int(m.group(1)) + f["index"] * shards
+    n = len(ops)
+    outdir = os.path.join(BUILD, "run", "shrink")
+    t0 = time.time()
+    tests = [0]
+
+    def fails(keep):
+        if time.time() - t0 > budget_s:
+            return False
+        tests[0] += 1
+        if os.path.isdir(outdir):
+            shutil.rmtree(outdir)
+        os.makedirs(outdir)
+        mask = "".join("1" if k else "0" for k in keep)
+        cmd = [amh, "sysdiff", "--out", outdir, "--seed", str(inv.get("seed")), "--tier", inv.get("tier", "quick"),
+               "--only", str(gi), "--keep", mask] + list(inv.get("extra", []))
+        rc, _ = sh(cmd, timeout=120)
+        vf = os.path.join(outdir, "shrink.v")
+        if rc != 0 or not os.path.exists(vf):
+            return False
+        rc, _ = sh(["timeout", "120", "coqc", "-Q", COQ, "AM", "-w", "-all", vf], cwd=outdir, timeout=150)
+        if rc != 0:
+            return False
+        outs = glob.glob(os.path.join(outdir, "shrink.*.out"))
+        res = parse_failing(outs[0]) if outs else None
+        return bool(res) and res[0][1] == f.get("code")
+
+    keep = [True] * n
+    if not fails(keep):
+        return None           # not reproducible in isolation: leave the original case alone
+    gran = 2
+    while sum(keep) >= 2 and time.time() - t0 < budget_s:
+        idx = [i for i, k in enumerate(keep) if k]
+        size = max(1, len(idx) // gran)
+        chunks = [idx[i:i + size] for i in range(0, len(idx), size)]
+        reduced = False
+        for ch in chunks:
+            cand = list(keep)
+            for i in ch:
+                cand[i] = False
+            if any(cand) and fails(cand):
+                keep = cand
+                gran = max(gran - 1, 2)
+                reduced = True
+                break
+        if not reduced:
+            if size == 1:
+                break
+            gran = min(len(idx), gran * 2)
+    kept_ops = [o for o, k in zip(ops, keep) if k]
+    return dict(original_length=n, shrunk_length=len(kept_ops), ops=kept_ops, tests=tests[0],
+                seconds=round(time.time() - t0, 1),
+                how=f"amh sysdiff --seed {inv.get('seed')} --tier {inv.get('tier')} --only {gi} --keep "
+                    + "".join("1" if k else "0" for k in keep) + " " + " ".join(inv.get("extra", [])))
 
 
 def load_known():
@@ -568,8 +635,15 @@ def check(prop, spec, tier, seed, replay, t0):
         run_dirs = [os.path.join(BUILD, "run", d) for d in os.listdir(os.path.join(BUILD, "run"))
                     if d.startswith(prop + "-")]
         model_side = explain_failure(f, run_dirs, explainers)
+        shrunk = None
+        if f.get("engine") == "sysdiff" and f.get("stem"):
+            try:
+                amh_bin, _ = build_harness(())
+                shrunk = shrink_sysdiff(amh_bin, f) if amh_bin else None
+            except Exception as e:  # noqa: BLE001  (shrinking is a convenience, never a verdict)
+                shrunk = dict(error=str(e))
         payload = dict(property=prop, kind="correspondence", tier=tier, seed=seed, failure=f,
-                       model_says=model_side,
+                       model_says=model_side, shrunk=shrunk,
                        n_failures=len(new_failures),
                        proofs_ok=proofs_good, proof_error=err_txt,
                        how_to_replay=f"bin/check {prop} --tier {tier}  (VERIF_SEED={seed})")
